@@ -11,6 +11,7 @@ import (
 	"fmt"
 	"net"
 	"os"
+	"runtime"
 	"sort"
 	"strconv"
 	"strings"
@@ -258,6 +259,57 @@ func (o *ObsWriter) Write(v interface{}) {
 	o.w.WriteByte('\n')
 	o.N++
 	o.mu.Unlock()
+}
+
+// Block collects the lines of one walk so that they are written contiguously.
+type Block struct{ lines [][]byte }
+
+func (b *Block) Add(v interface{}) {
+	x, err := json.Marshal(v)
+	if err != nil {
+		panic(err)
+	}
+	b.lines = append(b.lines, x)
+}
+
+func (o *ObsWriter) WriteBlock(b *Block) {
+	o.mu.Lock()
+	for _, l := range b.lines {
+		o.w.Write(l)
+		o.w.WriteByte('\n')
+		o.N++
+	}
+	o.mu.Unlock()
+}
+
+// ForEachWalk runs fn over the walks on GOMAXPROCS goroutines; each walk's observations are
+// written as one contiguous block.
+func ForEachWalk(walks []Walk, out *ObsWriter, fn func(w Walk, b *Block)) {
+	n := runtime.GOMAXPROCS(0)
+	if v := os.Getenv("VERIF_PAR"); v != "" {
+		n, _ = strconv.Atoi(v)
+	}
+	if n < 1 {
+		n = 1
+	}
+	ch := make(chan Walk)
+	var wg sync.WaitGroup
+	for i := 0; i < n; i++ {
+		wg.Add(1)
+		go func() {
+			defer wg.Done()
+			for w := range ch {
+				b := &Block{}
+				fn(w, b)
+				out.WriteBlock(b)
+			}
+		}()
+	}
+	for _, w := range walks {
+		ch <- w
+	}
+	close(ch)
+	wg.Wait()
 }
 
 func (o *ObsWriter) Close() {
